@@ -134,6 +134,13 @@ claim('C17', 'provenance / index-kind rules (single-exit, one axis token, POSITI
       'replacement with cast=True and inplace=False by default; _matches is total. Which labels survive for a given NaN pattern is not decided.',
       'Assumes ndarray.argsort / compress / take semantics.', 'DESIGN.md §3 C17')
 
+claim('C18', 'guard-form / provenance / option-plumbing rules and bounded integer check of the out-of-range markers (thin structural clauses)',
+      'Decides thin structural clauses of C18: numpy.interp only sees labels of an object that was sorted unless all(v[1:] >= v[:-1]); the interpolated position and the '
+      'relabelled axis come from one resolution, other axes are copied, metadata carried, swapaxes undone; left / right reach the 1-D and the N-d variant (default NaN); '
+      'the out-of-range masks are exact and disjoint for every axis length (coordinate comparison, fills valid positions); the weight formula is vleft + frac*(vright - vleft) '
+      'with lhs = int(idx), rhs = ceil(idx); interp_like accumulates by name; Dataset.interp_axis passes the requested axis. Numerical agreement with numpy.interp is not decided.',
+      'Assumes numpy.interp semantics for increasing nodes.', 'DESIGN.md §3 C18')
+
 UNDER_CONSTRUCTION = 'checker under construction in this session (claimed in DESIGN.md, not yet registered)'
 for pid in ['C01', 'C03', 'C04', 'C05', 'C06', 'C07', 'C08', 'C09', 'C10', 'C11', 'C12', 'C13', 'C14', 'C15', 'C16',
             'C17', 'C18', 'C19']:
